@@ -496,17 +496,37 @@ Qed.
 
 Definition add_slash (s : str) : str := match s with [] => [] | _ :: _ => s ++ [SL] end.
 
+Lemma has_rstrip_squash l : has_rstrip (squash l) = has_rstrip l.
+Proof.
+  induction l as [|o r IH]; [reflexivity|]. cbn [squash]. destruct r as [|o' r']; [reflexivity|].
+  destruct (is_sf o && sop_eqb o o') eqn:E.
+  - rewrite IH. apply andb_true_iff in E as [E _]. destruct o; try discriminate; reflexivity.
+  - unfold has_rstrip in *. cbn [existsb]. cbn [existsb] in IH. rewrite IH. reflexivity.
+Qed.
+
+Lemma has_rstrip_after_norm l : has_rstrip (after_norm l) = has_rstrip l.
+Proof.
+  rewrite <- (has_rstrip_squash l). unfold after_norm. destruct (squash l) as [|[] [|[] r]]; reflexivity.
+Qed.
+
+Lemma has_rstrip_sf a t : forallb is_sf a = true -> has_rstrip (a ++ t) = has_rstrip t.
+Proof.
+  unfold has_rstrip. intros H. induction a as [|o a IH]; [reflexivity|].
+  cbn [forallb] in H. apply andb_true_iff in H as [Ho Ha]. cbn [app existsb]. rewrite (IH Ha).
+  destruct o; try discriminate; reflexivity.
+Qed.
+
 Lemma folder_ops_sem b folder :
   folder_ops_ok (b_wfolder b) = true ->
   apply_ops (b_wfolder b) folder = add_slash (folder_key b folder).
 Proof.
   unfold folder_key, folder_ops_ok. generalize (b_wfolder b). intros l H.
-  rewrite (apply_ops_norm l folder).
-  destruct (split_sf (after_norm l)) as [a t] eqn:E. apply split_sf_spec in E as [E _]. rewrite E.
-  apply andb_true_iff in H as [Ha Ht]. rewrite apply_ops_app, (apply_sf_both a _ Ha).
+  rewrite (apply_ops_norm l folder), <- (has_rstrip_after_norm l).
+  destruct (split_sf (after_norm l)) as [a t] eqn:E. apply split_sf_spec in E as [E Hsf]. rewrite E.
+  apply andb_true_iff in H as [Ha Ht]. rewrite apply_ops_app, (apply_sf_both a _ Ha), (has_rstrip_sf a t Hsf).
   destruct (uses_norm l).
-  - repeat (destruct t as [|[] t]; try discriminate). reflexivity.
-  - repeat (destruct t as [|[] t]; try discriminate). reflexivity.
+  - repeat (destruct t as [|[] t]; try discriminate); reflexivity.
+  - repeat (destruct t as [|[] t]; try discriminate); reflexivity.
 Qed.
 
 Lemma add_slash_prefix G k : is_prefix (add_slash G) k = true <-> path_prefix G k.
@@ -577,7 +597,7 @@ Proof.
 Qed.
 
 Lemma folder_key_empty b : folder_key b [] = [].
-Proof. unfold folder_key, uses_norm. destruct (norm_kind (b_wfolder b)); reflexivity. Qed.
+Proof. unfold folder_key, uses_norm. destruct (norm_kind (b_wfolder b)), (has_rstrip (b_wfolder b)); reflexivity. Qed.
 
 Lemma filter_all {A} (p : A -> bool) l : (forall x, In x l -> p x = true) -> filter p l = l.
 Proof.
